@@ -2,6 +2,7 @@ import Cell2v.Driver.Util
 import Cell2v.Model.Mailbox
 import Cell2v.Driver.C09Ring
 import Cell2v.Driver.C09Mpsc
+import Cell2v.Driver.C09Sched
 /-!
 Model driver for C09.  The hooked real mailbox is driven one atomic step at a
 time by a controlling scheduler; every granted step is an op line
@@ -201,10 +202,34 @@ def specStepQM (s : (Sp Ã— C09Ring.SpQ) Ã— C09Mpsc.SpM) (line : String) : ((Sp Ã
       ((r, if (words op).head? == some "reset" then {} else s.2), o)
   | _ => let (r, o) := specStepQ s.1 line; ((r, s.2), o)
 
+/-! ### dispatcher component (`sd â€¦` lines, see `Driver/C09Sched.lean`) -/
+
+abbrev MS := ((St Ã— C09Ring.RS) Ã— Cell2v.MpscConc.St) Ã— Cell2v.SchedDisp.St
+abbrev SS := ((Sp Ã— C09Ring.SpQ) Ã— C09Mpsc.SpM) Ã— C09Sched.SpS
+
+def stepAll (s : MS) (line : String) : MS Ã— String :=
+  if C09Sched.isSdOp line then
+    let (d, o) := C09Sched.sdStep s.2 (words line)
+    ((s.1, d), o)
+  else
+    let (r, o) := stepQM s.1 line
+    ((r, s.2), o)
+
+def specAll (s : SS) (line : String) : SS Ã— String :=
+  match line.splitOn "\t" with
+  | [op, obs] =>
+    if C09Sched.isSdOp op then
+      let (d, o) := C09Sched.specSd s.2 op obs
+      ((s.1, d), o)
+    else
+      let (r, o) := specStepQM s.1 line
+      ((r, s.2), o)
+  | _ => let (r, o) := specStepQM s.1 line; ((r, s.2), o)
+
 end Cell2v.Driver.C09
 
 open Cell2v.Driver in
 def main (args : List String) : IO Unit :=
   match args with
-  | ["spec"] => runLoop Cell2v.Driver.C09.specStepQM (({}, {}), {})
-  | _ => runLoop Cell2v.Driver.C09.stepQM ((Cell2v.Mailbox.Fine.init, {}), Cell2v.MpscConc.init)
+  | ["spec"] => runLoop Cell2v.Driver.C09.specAll ((({}, {}), {}), {})
+  | _ => runLoop Cell2v.Driver.C09.stepAll (((Cell2v.Mailbox.Fine.init, {}), Cell2v.MpscConc.init), Cell2v.SchedDisp.init)
